@@ -69,7 +69,7 @@ def tla_shape(node):
 
 def cfg_of(fx):
     c = dict(manual=True, order="TopDown", payload="int", limit=4, taskcap=None, inj=[], defplan=[],
-             features=list(ALL_FEATURES))
+             features=list(ALL_FEATURES), overrides={})     # overrides: {"<state id>": [methods the state defines]}
     c.update(fx.get("config", {}))
     fl = Flat(fx["shape"])
     if c["taskcap"] is None:
@@ -80,11 +80,60 @@ def cfg_of(fx):
 def tla_defs(fx):
     """TLA+ text defining ShapeDef / CfgDef for this fixture"""
     c = cfg_of(fx)
+    fl = Flat(fx["shape"])
+    ovr = []
+    for s in range(1, fl.n + 1):
+        ms = c["overrides"].get(str(s), ALL_METHODS)
+        ovr.append("{%s}" % ",".join('"%s"' % m for m in ms))
     return ("ShapeDef == %s\n"
-            "CfgDef == [order |-> \"%s\", limit |-> %d, taskcap |-> %d, inj |-> {%s}, defplan |-> {%s}, manual |-> %s, features |-> {%s}]\n"
+            "CfgDef == [order |-> \"%s\", limit |-> %d, taskcap |-> %d, inj |-> {%s}, defplan |-> {%s}, manual |-> %s, features |-> {%s},\n"
+            "           ovr |-> <<%s>>]\n"
             % (tla_shape(fx["shape"]), c["order"], c["limit"], c["taskcap"],
                ",".join(map(str, c["inj"])), ",".join(map(str, c["defplan"])), "TRUE" if c["manual"] else "FALSE",
-               ",".join('"%s"' % f for f in c["features"])))
+               ",".join('"%s"' % f for f in c["features"]), ", ".join(ovr)))
+
+
+ALL_METHODS = ["select", "rank", "utility", "entryGuard", "enter", "reenter", "preUpdate", "update", "postUpdate",
+               "preReact", "react", "query", "postReact", "exitGuard", "exit", "planSucceeded", "planFailed"]
+_SIG = {
+    "entryGuard": ("void entryGuard(typename Base::GuardControl& c)", "M_ENTRY_GUARD"),
+    "enter": ("void enter(typename Base::PlanControl& c)", "M_ENTER"),
+    "reenter": ("void reenter(typename Base::PlanControl& c)", "M_REENTER"),
+    "preUpdate": ("void preUpdate(typename Base::FullControl& c)", "M_PRE_UPDATE"),
+    "update": ("void update(typename Base::FullControl& c)", "M_UPDATE"),
+    "postUpdate": ("void postUpdate(typename Base::FullControl& c)", "M_POST_UPDATE"),
+    "preReact": ("void preReact(const Ev&, typename Base::EventControl& c)", "M_PRE_REACT"),
+    "react": ("void react(const Ev&, typename Base::EventControl& c)", "M_REACT"),
+    "postReact": ("void postReact(const Ev&, typename Base::EventControl& c)", "M_POST_REACT"),
+    "query": ("void query(Ev&, typename Base::ConstControl& c) const", "M_QUERY"),
+    "exitGuard": ("void exitGuard(typename Base::GuardControl& c)", "M_EXIT_GUARD"),
+    "exit": ("void exit(typename Base::PlanControl& c)", "M_EXIT"),
+    "planSucceeded": ("void planSucceeded(typename Base::FullControl& c)", "M_PLAN_SUCCEEDED"),
+    "planFailed": ("void planFailed(typename Base::FullControl& c)", "M_PLAN_FAILED"),
+}
+
+
+def cpp_specialisation(sid, methods, features):
+    """explicit specialisation of St<sid-1> that defines only `methods` (everything else is inherited from FSM::State)"""
+    i = sid - 1
+    out = ["template <> struct St<%d> : FSM::State {" % i, "\tusing Base = FSM::State;"]
+    for me in ("preReact", "react", "postReact", "query"):
+        if me not in methods:
+            out.append("\tusing Base::%s;" % me)
+    for me in methods:
+        if me in _SIG:
+            if me.startswith("plan") and "PLANS" not in features:
+                continue
+            sig, mid = _SIG[me]
+            out.append("\t%s { ::fx::fwd(c, %d, %s, this); }" % (sig, i, mid))
+        elif me == "select":
+            out.append("\thfsm2::Prong select(const typename Base::Control& c) { return (hfsm2::Prong) ::fx::fwdSelect(c, %d); }" % i)
+        elif me == "rank" and "UTILITY_THEORY" in features:
+            out.append("\ttypename Base::Rank rank(const typename Base::Control& c) { return (typename Base::Rank) ::fx::fwdRank(c, %d); }" % i)
+        elif me == "utility" and "UTILITY_THEORY" in features:
+            out.append("\ttypename Base::Utility utility(const typename Base::Control& c) { return ::fx::fwdUtility(c, %d); }" % i)
+    out.append("};")
+    return "\n".join(out)
 
 
 def cpp_type(node, counter):
@@ -164,6 +213,10 @@ def cpp_source(fx, header="hfsm2/machine.hpp", extra_defines=()):
     lines.append("}")
     if c["manual"]:
         lines.append("#define FX_MANUAL 1")
+    if c["overrides"]:
+        assert not c["inj"], "fixtures with partial overrides carry no injected handlers"
+        spec = "\n".join(cpp_specialisation(int(k), v, c["features"]) for k, v in sorted(c["overrides"].items(), key=lambda kv: int(kv[0])))
+        lines.append("#define FX_SPECIALISATIONS \\\n" + " \\\n".join(spec.split("\n")))
     lines.append('#include "driver.inl"')
     # structural cross-check against Structure.tla's python mirror (C17 does the real job)
     lines.append("namespace fx {")
